@@ -1610,6 +1610,9 @@ func injectorTemplateForms() []*Program {
 		{"paren-build", "wire.Build call statement in parentheses", "\t(wire.Build(NewSvc))\n\treturn nil\n"},
 		{"panic-paren-build", "panic of a parenthesised wire.Build call", "\tpanic((wire.Build(NewSvc)))\n"},
 		{"paren-panic-build", "parenthesised panic of a wire.Build call", "\t(panic(wire.Build(NewSvc)))\n"},
+		{"paren-callee-build", "wire.Build written (wire.Build)(...)", "\t(wire.Build)(NewSvc)\n\treturn nil\n"},
+		{"paren-callee-panic-build", "(panic)((wire.Build)(...))", "\t(panic)((wire.Build)(NewSvc))\n"},
+		{"paren-callee-newset", "wire.Build of a set written (wire.NewSet)(...)", "\tpanic(wire.Build((wire.NewSet)((NewSvc))))\n"},
 	} {
 		p := mk(v.id, v.note, false)
 		p.Extra["0/decl.go"] = "package app\n\ntype Svc struct{ N int }\n\nfunc NewSvc() *Svc { return &Svc{N: 1} }\n\nfunc NewOther() int { return 2 }\n"
